@@ -817,7 +817,7 @@ func (e *Extractor) ToMarkdownWithOptions(opts rag.MarkdownOptions) (string, []W
 			return "", nil, err
 		}
 		defer e.Close()
-		md, err := e.epubReader.Markdown()
+		md, err := e.epubReader.MarkdownWithRAGOptions(epubdoc.ExtractOptions{}, opts)
 		if err != nil {
 			return "", nil, err
 		}
